@@ -62,8 +62,9 @@ class Lab(object):
             return None
         if fid not in self.factories:
             def factory(arg, fid=fid):
-                def render(context):
-                    return Response('F%d:%s|%s' % (fid, arg, context['body']))
+                def render(context, ra=None, rb=None, rc=None, rd=None):
+                    seen = ','.join('%s=%s' % kv for kv in (('ra', ra), ('rb', rb), ('rc', rc), ('rd', rd)) if kv[1] is not None)
+                    return Response('F%d:%s|%s|%s' % (fid, arg, context['body'], seen))
                 render.fid, render.arg = fid, arg
                 return render
             factory.fid = fid
@@ -79,8 +80,9 @@ class Lab(object):
         rid = rn[1]
         key = ('render', rid)
         if key not in self.factories:
-            def render(context, rid=rid):
-                return Response('C%d|%s' % (rid, context['body']))
+            def render(context, ra=None, rb=None, rc=None, rd=None, rid=rid):
+                seen = ','.join('%s=%s' % kv for kv in (('ra', ra), ('rb', rb), ('rc', rc), ('rd', rd)) if kv[1] is not None)
+                return Response('C%d|%s|%s' % (rid, context['body'], seen))
             render.rid = rid
             self.factories[key] = render
         return self.factories[key]
@@ -169,7 +171,9 @@ def probe_paths(patterns):
     paths = []
     for p in patterns:
         s = re.sub(r'<[^>]*>', 'v', p)
-        for x in (s, s.rstrip('/') + '//' if s != '/' else '/', s.rstrip('/') or '/'):
+        segs = [t for t in s.split('/') if t]
+        inner_doubled = '/' + '//'.join(segs) + ('/' if s.endswith('/') and segs else '')      # every slash INSIDE the path doubled
+        for x in (s, s.rstrip('/') + '//' if s != '/' else '/', s.rstrip('/') or '/', inner_doubled):
             if x not in paths:
                 paths.append(x)
     paths.append('/definitely/not/there')
@@ -180,7 +184,7 @@ def probe_app(app, patterns):
     from harness import wsgi
     out = []
     for path in probe_paths(patterns):
-        for method in ('GET', 'POST'):
+        for method in ('GET', 'POST', 'PUT'):          # PUT: a method that method-restricted routes of the catalogue do not admit
             del _TRACE[:]
             r = wsgi.get(app, path, method=method)
             out.append([method, path, r.code, r.body.decode('utf8', 'replace')[:200] if r.code == 200 else '',
@@ -215,6 +219,9 @@ def impl(case):
             rec['obs'] = ['fail', type(e).__name__]
             rec['detail'] = str(e)[:200]
         rec['world'] = dict((str(i), lab.snapshot(a)) for i, a in sorted(lab.apps.items()))
+        # what an application was constructed with never changes, whatever is added to it or wherever it is embedded
+        rec['appstate'] = dict((str(i), [[getattr(m, 'inst', repr(m)) for m in a.middlewares], sorted(a.resources.items()),
+                                         a.slash_mode]) for i, a in sorted(lab.apps.items()))
         rec['probes'] = dict((str(i), lab.probe(a)) for i, a in sorted(lab.apps.items()))
         after_routes = lab.route_state()
         rec['routes_changed'] = [k for k in before_routes if before_routes[k] != after_routes.get(k)]
@@ -326,6 +333,9 @@ def build_flat(lab, case, tid, oks):
         for l in reversed(levels[:-1]):
             res.update(dict(l[0]['resources']))
         res.update(dict(d['resources']))
+        # the serving (outermost) application's value wins for a name it also defines: the flat declaration simply does
+        # not define such a name further in (declaring it again at route level would re-create the shadowing question)
+        res = dict((k, v) for k, v in res.items() if k not in dict(env['resources']))
         # slash mode through the inheritance flags
         eff = levels[0][0]['mode'] if rinh else d['mode']
         for l in levels[1:]:
@@ -422,8 +432,14 @@ def entry_keys(e, trees=None):
 
 def oracle_c11(case, steps):
     prev_world, prev_probes = {}, {}
+    first_state = {}
     for n, (op, st) in enumerate(zip(case['ops'], steps)):
         what = 'step %d %s' % (n, op[0])
+        for aid, state in (st.get('appstate') or {}).items():
+            if aid in first_state and state != first_state[aid]:
+                return ('%s: application %s was constructed with middlewares / resources / slash mode %s and now has %s'
+                        % (what, aid, first_state[aid], state), 'application-mutated')
+            first_state.setdefault(aid, state)
         if st['routes_changed']:
             return ('%s changed the Route object(s) %s it was given' % (what, st['routes_changed']), 'route-mutated')
         tid = str(op[1]['id']) if op[0] == 'new' else str(op[1])
@@ -526,6 +542,7 @@ class Gen(object):
         needs = [n for n in avail if r.random() < 0.4] + [n for n, _ in res]
         import re
         needs += [n for n in re.findall(r'<([a-z]+)', pat) if r.random() < 0.7]
+        needs = list(dict.fromkeys(needs))        # a name shared by two levels is needed once
         if fail == 'need':
             needs.append('nowhere')
         if fail == 'pattern':
@@ -546,7 +563,9 @@ class Gen(object):
             if depth > 0 and r.random() < 0.4:
                 inner = self.env()
                 # a name defined by two inner levels only has no documented precedence: keep inner names disjoint
-                inner['resources'] = [[nm + str(inner['id']), v] for nm, v in inner['resources']]
+                # ... but a name may be shared with the OUTERMOST application (its value wins for every consumer)
+                inner['resources'] = [[nm if (nm in getattr(self, 'top_names', ()) and r.random() < 0.5) else nm + str(inner['id']), v]
+                                      for nm, v in inner['resources']]
                 sub = self.entries(inner, depth - 1, avail + [nm for nm, _ in inner['resources']], 2, f)
                 prefix = r.choice(['/p%d' % inner['id'], '/p%d/' % inner['id'], '/', '/<pre>' if f == 'prefix' else '/s'])
                 out.append(['sub', prefix, inner, sub, r.random() < 0.4, r.random() < 0.6])
@@ -565,11 +584,13 @@ class Gen(object):
             if not live or x < 0.3:
                 env = self.env()
                 fail = r.choice(['need', 'pattern']) if r.random() < 0.15 else None
+                self.top_names = [n for n, _ in env['resources']]
                 ops.append(['new', env, self.entries(env, r.choice([0, 1, 2]), [n for n, _ in env['resources']], 3, fail)])
                 if fail is None:
                     live.append(env)
             elif x < 0.75:
                 env = r.choice(live)
+                self.top_names = [n for n, _ in env['resources']]
                 fail = r.choice(['need', 'pattern']) if r.random() < 0.3 else None
                 e = self.entries(env, r.choice([0, 0, 1, 2]), [n for n, _ in env['resources']], 3, fail)[-1]
                 ops.append(['add', env['id'], e, r.choice([None, None, 0, 1, 2, -1, -2, 7, -9])])
